@@ -165,15 +165,17 @@ Spec == Init /\ [][Next]_vars
 
 \* behaviour export (tlc -simulate): the scenario is drawn at random in the first step, because the
 \* simulator enumerates Init once and the full scenario space is far too large to enumerate there
-RandomScn ==
-  [alarms |-> [i \in 1..NA |-> [delay |-> RandomElement(Delays), beh |-> RandomElement(ABeh)]],
-   watches |-> [f \in 1..NF |-> [at |-> RandomElement(Ats), beh |-> RandomElement(WBeh)]],
-   idles |-> [i \in 1..NI |-> RandomElement(IBeh)],
-   busy |-> RandomElement(Busy)]
+\* (an operator with a parameter that the body uses: a constant-level definition without parameters is evaluated once per TLC run,
+\* which made every behaviour of one run start from the same scenario)
+RandomScn(k) ==
+  [alarms |-> [i \in 1..NA |-> [delay |-> RandomElement({d \in Delays : k >= 0}), beh |-> RandomElement({b \in ABeh : k >= 0})]],
+   watches |-> [f \in 1..NF |-> [at |-> RandomElement({a \in Ats : k >= 0}), beh |-> RandomElement({b \in WBeh : k >= 0})]],
+   idles |-> [i \in 1..NI |-> RandomElement({b \in IBeh : k >= 0})],
+   busy |-> RandomElement({b \in Busy : k >= 0})]
 SimInit == /\ scn = [alarms |-> <<>>, watches |-> <<>>, idles |-> <<>>, busy |-> 0]
            /\ s = InitState /\ why = "-" /\ nextid = NA + 2 /\ phase = "choose" /\ steps = 0 /\ zero = {}
 Choose == /\ phase = "choose"
-          /\ scn' = RandomScn
+          /\ scn' = RandomScn(steps)
           /\ LET r == Fold(InitState, RegEvents(scn'), 1) IN s' = r.s /\ why' = r.why
           /\ zero' = {i \in 1..NA : scn'.alarms[i].delay = 0}
           /\ phase' = "run"
